@@ -317,7 +317,7 @@ func (k *kvRun) snapshot() (Term, error) {
 	for _, n := range order {
 		collTerms = append(collTerms, S(n))
 	}
-	names := append(append([]string{}, kvXnames...), "$document")
+	names := append(append([]string{}, kvXnames...), "$document", "$document.revid")
 	for _, cn := range kvColls {
 		if !exist[cn] {
 			continue
